@@ -1096,6 +1096,7 @@ def build(ctx):
         _strict(ctx, eng, label)
     _local_ops_resolve_through_get_path(ctx)
     _dir_scan(ctx)
+    _links_are_followed(ctx)
     import os
     script = open(os.path.join(os.path.dirname(__file__), 'native', 'c22_replay.py')).read()
     ctx.witness_search = lambda: core.run_native(script, {}, timeout=300)
@@ -1112,6 +1113,38 @@ def build(ctx):
     ctx.undecided('file:// locations whose path contains ; ? #: url_join / url_basename still go through urlparse for locations WITH a scheme (the part after the delimiter ends up behind the joined path); observation only: LocalAsyncFS._get_path("file:/tmp/x") == "mp/x" and _get_path("//localhost/tmp/x") == "st/tmp/x" (prefix length computed from "file://" + netloc although the text has no "//" / an extra "//") - both outside the antecedents of the _get_path postconditions (plain paths, file://[localhost]/...)')
     ctx.undecided('task interleavings beyond the barrier rely; error aggregation in CopyReport / TransferReport; _copy_one_transfer / _copy dispatch over lists of transfers')
     ctx.undecided('cloud multi-part uploads (S3 / GCS compose / Azure block lists): only the local MultiPartCreate is under contract')
+
+
+def _links_are_followed(ctx):
+    """the local file system decides "file or directory" and reads sizes through symbolic links everywhere (listing entries,
+    statfile, staturl, isfile / isdir): the copier's verdicts (which sources are directories, whether the destination exists as
+    a directory) and the listing contract assumed above ("every regular file below src") talk about the files the paths DENOTE.
+    One query that looks at the link itself (lstat, follow_symlinks=False, islink) makes a linked directory a "file" for that
+    query only.  Decided on the AST of local_fs.py."""
+    import ast as pyast
+
+    tree = pyast.parse(core.read_repo('hail/python/hailtop/aiotools/local_fs.py'))
+    bad = []
+    # the deleting operations are not part of a copy and legitimately look at the link itself (rmtree removes a link, not its target)
+    deleting = {'rmtree', 'remove', 'rmdir'}
+    nodes = []
+    for top in tree.body:
+        if isinstance(top, pyast.ClassDef):
+            for m in top.body:
+                if not (isinstance(m, (pyast.FunctionDef, pyast.AsyncFunctionDef)) and m.name in deleting):
+                    nodes.extend(pyast.walk(m))
+        else:
+            nodes.extend(pyast.walk(top))
+    for n in nodes:
+        # a reference is enough: the functions are often handed to the thread pool (blocking_to_async(pool, os.stat, path))
+        if isinstance(n, pyast.Attribute) and n.attr in ('lstat', 'islink', 'is_symlink', 'readlink'):
+            bad.append('L%d %s' % (n.lineno, pyast.unparse(n)))
+        if isinstance(n, pyast.Call):
+            f = pyast.unparse(n.func)
+            for k in n.keywords:
+                if k.arg in ('follow_symlinks', 'followlinks') and not (isinstance(k.value, pyast.Constant) and k.value.value is True):
+                    bad.append('L%d %s(%s=%s)' % (n.lineno, f, k.arg, pyast.unparse(k.value)))
+    ctx.add(core.decided('C22/LocalAsyncFS/file-or-directory-and-sizes-are-decided-through-symbolic-links-in-every-non-deleting-operation', not bad, repr(bad), kind='scan'))
 
 
 def thorough(ctx):
